@@ -10,8 +10,10 @@ Lemma params_complete_sxg : p_translator_complete = true.
 Proof. reflexivity. Qed.
 
 (* ---- signed exchanges (C01 C02 C08 C09) ---------------------------------- *)
+(* the two header sets, compared as sets (both sides sorted, duplicates removed by the translator) *)
 Lemma params_stateful_headers :
-  p_stateful_request_headers = stateful_request_headers /\ p_uncached_headers = uncached_headers.
+  p_stateful_request_headers = isort bytes_ltb stateful_request_headers /\
+  p_uncached_headers = isort bytes_ltb uncached_headers.
 Proof. split; reflexivity. Qed.
 Lemma params_cacheable_status :
   p_cacheable_status_codes_sorted = true /\
